@@ -153,13 +153,13 @@ COMMON_ASSUME = ["TLC's evaluator and the CommunityModules Java overrides (Bitwi
                  "my transcription of the published algorithms into TLA+ (self-checked against known-answer vectors in spec/mc/MC_Vectors)"]
 
 
-def panic_candidates(S, kinds, n, label):
+def panic_candidates(S, kinds, n, label, outputs=4):
     """Value properties say what every call returns; a call that panics returns nothing.  The native panic scan of C14
     (counter seeds built three ways and driven for a few outputs) proposes seeds; each hit becomes an ordinary case."""
     binp = vlib.build_harness("o3chk", True)       # optimised, with overflow checks and debug assertions: many seeds per second
     wd = vlib.workdir("scan-" + label)
     sp, tp = os.path.join(wd, "scan.s"), os.path.join(wd, "scan.t")
-    vlib.write_ndjson(sp, [{"op": "reset"}] + [{"op": "panic_scan", "kind": kd, "n": n, "seed_len": corpora.SEEDLEN[kd], "outputs": 4, "threads": 14} for kd in kinds])
+    vlib.write_ndjson(sp, [{"op": "reset"}] + [{"op": "panic_scan", "kind": kd, "n": n, "seed_len": corpora.SEEDLEN[kd], "outputs": outputs, "threads": 14} for kd in kinds])
     vlib.drive(binp, sp, tp, timeout=3000)
     found = 0
     for e in vlib.read_ndjson(tp):
@@ -189,6 +189,17 @@ def check_C01(tier, seed):
             ops += [{"op": "from_seed", "g": 1, "kind": kind, "seed": sd}, {"op": nat, "g": 1, "n": 3}]
         if ops:
             S.case("%s states stepping onto structured states" % kind, ops)
+    # states reached otherwise than by seeding: after jump / long_jump, and restored from a serde image
+    for kind in list(corpora.XO) + ["SplitMix64"]:
+        nat = corpora.native_op(kind)
+        ops = []
+        for r in range(2 if tier == "quick" else 12):
+            sd = [rng.getrandbits(8) | (1 if r == 0 else 0) for _ in range(corpora.SEEDLEN[kind])]
+            if kind in corpora.XO_JUMP:
+                for j in ("jump", "long_jump"):
+                    ops += [{"op": "from_seed", "g": 1, "kind": kind, "seed": sd}, {"op": nat, "g": 1, "n": 1}, {"op": j, "g": 1}, {"op": nat, "g": 1, "n": 3}]
+            ops += [{"op": "de_image", "kind": kind, "image": sd, "to": 2}, {"op": nat, "g": 2, "n": 3}]
+        S.case("%s states reached by jumps and from serde images" % kind, ops)
     panic_candidates(S, list(corpora.XO) + ["SplitMix64"], 400000 if tier == "quick" else 8000000, "C01")
     return trace_check("C01", tier, seed, S, "Trace_Alg.tla", "Trace_Alg.cfg", release_every=3,
                        rule="for each of the 14 linear generators: every unit-bit seed (complete GF(2) basis of the state space and of the seed decoding) stepped twice; structured scrambler classes (carry chains of every length, multiplier wrap, all-ones, high bits); random seeds x K consecutive native outputs with the full state image compared after every call; SplitMix64 counters around the 2^64 wrap with both finalizers. One TLC state per recorded event; distinct = distinct events",
@@ -683,6 +694,7 @@ def check_C16(tier, seed):
     for r in (127, 128, 254, 255):        # the extreme round counts (u8)
         corpora.stuck_run_cases(S, rng, (2,), r)
     corpora.zero_reading_cases(S, rng)
+    S.case("JitterRng::new(): a new generator owes no half", [{"op": "jit_std_new"}, {"op": "jit_std_new"}])
     rc = trace_check("C16", tier, seed, S, "Trace_Jitter.tla", "Trace_Jitter.cfg", weight=jit_weight,
                      rule="timer scripts constructed so that the first collected value is 0, all ones or has a zero / all-ones half are run through the same discipline. TLC explores the hand-out machine JitterApi (collections as tokens, <=3 instances incl. clone of clone, all interleavings of next_u32/next_u64/fill_bytes(n)/clone) and checks AtMostOnce, PendingIsHighHalfOfOwnValue and FreshOrPendingHalf; a negative control (Clone copying the flag) must fail; every edge of the projected graph (alive, pending flags) is executed on real JitterRng instances with their own scripted timer cursors, and Trace_Jitter, which executes the same plans on concrete pools, validates values, flags and readings consumed. distinct = distinct recorded events",
                      assumptions=JIT_ASSUME + ["fill_bytes(n in 1..4) with a half pending is left open between C05's and C16's wording: both plans are admitted"],
@@ -744,12 +756,13 @@ def check_C15(tier, seed):
     res = vlib.extract_tuples(r["out"], "RESULT")
     if not res:
         raise ToolError("ALG_Pool produced no RESULT:\n" + r["out"][-3000:])
-    items = re.findall(r'<<"(lp|lt|st|lv|tv|nx|lh|th)", "([a-z-]+)", (\d+), <<(\d+), (\d+), (\d+), (\d+)>>, (\d+)>>', res[-1])
+    items = re.findall(r'<<"(lp|lt|st|lv|tv|nx|lh|th|tp|tf)", "([a-z-]+)", (\d+), <<(\d+), (\d+), (\d+), (\d+)>>, (\d+)>>', res[-1])
     rot = int(re.search(r'(\d+)\s*>>\s*$', res[-1]).group(1))
     names = {"lp": "pool -> lfsr(pool, fixed time)", "lt": "time -> lfsr(fixed pool, time)", "st": "pool -> stir(pool)",
              "lv": "pool -> pool after the variable-round fold step (fixed readings)", "tv": "time -> pool after the variable-round fold step (fixed pool)",
              "nx": "pool -> next_u64 output of one whole collection (fixed readings)",
-             "lh": "pool -> lfsr(pool, fixed time) while a half is owed", "th": "time -> lfsr(fixed pool, time) while a half is owed"}
+             "lh": "pool -> lfsr(pool, fixed time) while a half is owed", "th": "time -> lfsr(fixed pool, time) while a half is owed",
+             "tp": "pool -> pool after test_timer over a healthy clock", "tf": "pool -> pool after a test_timer that gives up at the fifth probe"}
     R1, R2 = corpora.C15_R1, corpora.C15_R2
     nviol, undecided, ranks = 0, [], {}
     C, P0 = 0x0123456789ABCDEF, 0xDEADBEEF0BADF00D
@@ -794,13 +807,15 @@ def check_C15(tier, seed):
             k = vlib.from_limbs([int(k0), int(k1), int(k2), int(k3)])
             pre = [1000, 2037, 3078, 4123, 5172, 6225, 7282]       # one collection with rounds = 1 (for "lh" / "th": a next_u32 first)
             rd = {"st": [], "lp": [C, C + 1] * 2, "lt": [0, 1, k, k + 1], "lv": [C, R1, R2, C + 1] * 2, "tv": [0, R1, R2, 1, k, R1, R2, k + 1], "nx": S.nx_readings,
-                  "lh": pre + [C, C + 1] * 2, "th": pre + [0, 1, k, k + 1]}[kind]
+                  "lh": pre + [C, C + 1] * 2, "th": pre + [0, 1, k, k + 1], "tp": S.tt_readings["tp"], "tf": S.tt_readings["tf"]}[kind]
             ops = [{"op": "timer", "t": 1, "readings": [vlib.u64(x) for x in rd], "cont": [vlib.u64(1)]},
                    {"op": "jit_new", "g": 1, "t": 1}]
             if kind in ("lh", "th"):
                 ops += [{"op": "set_rounds", "g": 1, "r": 1}, {"op": "next_u32", "g": 1}]
             for w, v in ((0, 0), (1, k)):
-                if kind in ("lh", "th"):
+                if kind in ("tp", "tf"):
+                    ops += [{"op": "seek", "g": 1, "pos": 0}, {"op": "set_pool", "g": 1, "pool": vlib.u64(v)}, {"op": "test_timer", "g": 1, "tag": ["confirm", kind, w]}]
+                elif kind in ("lh", "th"):
                     ops += [{"op": "seek", "g": 1, "pos": len(pre) + 2 * w}, {"op": "set_pool", "g": 1, "pool": vlib.u64(v if kind == "lh" else P0)},
                             {"op": "timer_stats", "g": 1, "var": False, "tag": ["confirm", kind, w]}]
                 elif kind == "st":
@@ -872,7 +887,7 @@ def check_C15(tier, seed):
                 out[e["tag"][2]] = vlib.from_limbs(e["obs"]["pool"])
         return [out.get(i) for i in range(len(xs))]
     for kind in names:
-        if kind in ("lh", "th"):
+        if kind in ("lh", "th", "tp", "tf"):
             continue
         if ranks.get(names[kind], {}).get("status") != "affine" or ranks[names[kind]]["rank"] != 64 or (kind, -1) not in img:
             continue
@@ -978,7 +993,7 @@ def step_weight(evs):
 
 def check_C02(tier, seed):
     S = corpora.block_alg_corpus("Hc128Rng", seed, tier, 32, 2200, 2)
-    panic_candidates(S, ["Hc128Rng"], 600000 if tier == "quick" else 6000000, "C02")
+    panic_candidates(S, ["Hc128Rng"], 250000 if tier == "quick" else 2500000, "C02", outputs=1500)     # about 2^32 keystream words in quick
     return trace_check("C02", tier, seed, S, "Trace_Alg.tla", "Trace_Alg.cfg", weight=step_weight, timeout=3400, release_every=6,
                        extra_runs=[("C02-veryfar", corpora.very_far_corpus(seed), "Trace_Pair", None, "o3chk"),
                                    ("C02-mixed", corpora.mixed_value_corpus("Hc128Rng", seed, tier), "Trace_Full", None)],
@@ -1341,6 +1356,38 @@ def c19_general_cases(seed, tier):
                 [{"op": "next_u64", "g": 2} for _ in range(6)]
         inter = [dict(o, th=1) if o["op"] != "timer" else o for o in a_ops] + [dict(o, th=2) if o["op"] != "timer" else o for o in b_ops]
         cases.append({"label": "JitterRng next to a neighbour whose clock stood still for 2^20 measurements", "solo": {1: a_ops, 2: b_ops}, "inter": inter, "bg": ["JitterRng"]})
+    # (f) JitterRng neighbours that are dropped (or replaced by clone_from) while they still owe the high half of a value
+    for variant in ("drop", "clone_from"):
+        def jit(g, salt):
+            sc = corpora.jitter_script(random.Random(seed * 7 + salt), [("random", 500)])
+            return [{"op": "timer", "t": g, "readings": [vlib.u64(x) for x in sc], "cont": corpora.CONT}, {"op": "jit_new", "g": g, "t": g}, {"op": "set_rounds", "g": g, "r": 2}]
+        a_ops = jit(1, 1) + [{"op": "next_u64", "g": 1}, {"op": "next_u32", "g": 1}, {"op": "next_u32", "g": 1}, {"op": "next_u32", "g": 1}, {"op": "fill_bytes", "g": 1, "n": 3}, {"op": "next_u64", "g": 1}]
+        b_ops = jit(2, 2) + [{"op": "next_u32", "g": 2}] + ([{"op": "drop", "g": 2}] if variant == "drop" else jit(3, 3) + [{"op": "clone_from", "g": 2, "from": 3}, {"op": "drop", "g": 2}])
+        na = len(jit(1, 1))
+        inter = [dict(o, th=1) if o["op"] != "timer" else o for o in a_ops[:na + 1]] + [dict(o, th=2) if o["op"] not in ("timer",) else o for o in b_ops] + \
+                [dict(o, th=1) for o in a_ops[na + 1:]]
+        cases.append({"label": "JitterRng next to a neighbour that is %s while it owes a half" % ("dropped" if variant == "drop" else "overwritten"), "solo": {1: a_ops}, "inter": inter, "bg": ["Xoshiro256PlusPlus"]})
+    # (g) the same few seeds constructed again and again (the all-zero seed, seed_from_u64(0), one fixed seed) while the
+    # unscripted background constructs generators of the same type from the same and from other seeds on several threads
+    for kind in corpora.ALL_SEEDABLE:
+        fixed = [(i * 29 + 3) & 0xFF for i in range(corpora.SEEDLEN[kind])]
+        ops1 = []
+        for r in range(60 if tier == "quick" else 240):
+            ctor = [{"op": "from_seed", "g": 1, "kind": kind, "seed": [0] * corpora.SEEDLEN[kind]}, {"op": "seed_from_u64", "g": 1, "kind": kind, "x": vlib.u64(0)},
+                    {"op": "from_seed", "g": 1, "kind": kind, "seed": fixed}][r % 3]
+            ops1 += [ctor, {"op": "next_u64", "g": 1}, {"op": "next_u32", "g": 1}]
+        cases.append({"label": "%s constructed repeatedly from recurring seeds under concurrent construction" % kind, "solo": {1: ops1},
+                      "inter": [dict(o, th=1 + (i // 3) % 2) for i, o in enumerate(ops1)], "bg": [kind], "bg_threads": 8})
+    # (h) generators constructed in tight loops on 8 threads at once from a handful of recurring seeds (thousands of
+    # constructions); alone: the same seeds on one thread.  Recorded: per seed the set of distinct output digests.
+    for kind in corpora.ALL_SEEDABLE:
+        L = corpora.SEEDLEN[kind]
+        seeds = [[0] * L, [(i * 29 + 3) & 0xFF for i in range(L)]] + [[rng.getrandbits(8) for _ in range(L)] for _ in range(4)]
+        heavy = kind in ("IsaacRng", "Isaac64Rng", "Hc128Rng")
+        rounds = (2500 if heavy else 20000) if tier == "quick" else (20000 if heavy else 200000)
+        cases.append({"label": "%s constructed in tight loops on 8 threads" % kind,
+                      "solo": {1: [{"op": "par_ctor", "g": 1, "kind": kind, "seeds": seeds, "rounds": 12, "sequential": True}]},
+                      "inter": [{"op": "par_ctor", "g": 1, "kind": kind, "seeds": seeds, "rounds": rounds, "th": 1}], "bg": [kind], "bg_threads": 2})
     # (c) JitterRng::new() (process-wide cache) before the test_timer of an instance with a hopeless timer of its own
     for style, step in (("constant step", [25]), ("multiples of 100", [100, 300, 200]), ("lively", None)):
         t = rng.getrandbits(40) + 1
@@ -1439,7 +1486,7 @@ def check_C19(tier, seed):
     for with_bg in (True, False):       # with unscripted background load, and without (it can also MASK a one-entry cache)
         gsched = [{"op": "reset"}]
         for ci, c in enumerate(gcases):
-            gsched += [{"op": "reset", "label": c["label"], "id": ci}, {"op": "bg_start", "threads": 3 if with_bg else 0, "kinds": c["bg"]}] + c["inter"] + [{"op": "bg_stop"}]
+            gsched += [{"op": "reset", "label": c["label"], "id": ci}, {"op": "bg_start", "threads": c.get("bg_threads", 3) if with_bg else 0, "kinds": c["bg"]}] + c["inter"] + [{"op": "bg_stop"}]
         sp, tp = os.path.join(swd, "gen.s"), os.path.join(swd, "gen.t")
         vlib.write_ndjson(sp, gsched)
         vlib.drive(binp, sp, tp)
@@ -1481,7 +1528,7 @@ def check_C19(tier, seed):
             ci, g = next(((c, gg) for c, gg, end in index if at <= end), (None, None))
             c = gcases[ci] if ci is not None else None
             path = vlib.write_replay("C19", {"property": "C19", "case": c["label"] if c else "?", "signature": "solo-vs-interleaved|%s|g%s" % (c["label"] if c else "?", g),
-                                             "instance": g, "schedule_interleaved": [{"op": "reset"}, {"op": "bg_start", "threads": 3 if with_bg else 0, "kinds": c["bg"]}] + c["inter"] + [{"op": "bg_stop"}] if c else None,
+                                             "instance": g, "schedule_interleaved": [{"op": "reset"}, {"op": "bg_start", "threads": c.get("bg_threads", 3) if with_bg else 0, "kinds": c["bg"]}] + c["inter"] + [{"op": "bg_stop"}] if c else None,
                                              "schedule_alone": [{"op": "reset"}] + c["solo"][g] if c else None,
                                              "event_alone": A[at - 1] if 0 < at <= len(A) else None, "event_interleaved": B[at - 1] if 0 < at <= len(B) else None,
                                              "how": "drive schedule_alone in a process of its own and schedule_interleaved in another; compare the events of the instance"})
@@ -1710,6 +1757,13 @@ def jump_conformance_corpus(seed, tier):
                 ops.append({"op": j, "g": 1})
                 ops.append({"op": nat, "g": 1, "n": 3})
         S.case("%s jump of random states" % kind, ops, weight=len(ops) * nb // 8)
+        # structured START states (equal words, words cancelling under xor / addition, almost zero): special cases on the
+        # states visited inside the jump loop
+        ops = []
+        for sd in corpora.structured_seeds(kind, rng)[:: (2 if tier == "quick" else 1)]:
+            for j in ("jump", "long_jump"):
+                ops += [{"op": "from_seed", "g": 1, "kind": kind, "seed": sd}, {"op": j, "g": 1}, {"op": nat, "g": 1, "n": 2}]
+        S.case("%s jump from structured states" % kind, ops, weight=len(ops) * nb // 8)
         # states whose jump lands on a structured state (words cancelling under xor / addition, equal words, almost
         # zero): a special case on the RESULT of the jump is invisible from unit and random states
         ops = []
@@ -2013,6 +2067,11 @@ def check_C07(tier, seed):
         Sz.case("%s try_from_rng: a zero block, then the source fails" % kind,
                 [{"op": "src", "s": 1, "bytes": [0] * L + [rz.getrandbits(8) | 1 for _ in range(2 * L)], "fallible": True, "fail_at": 2},
                  {"op": "try_from_rng", "g": 1, "kind": kind, "s": 1}])
+    for kind in corpora.XO_JUMP:      # a jump is 2^(n/2) steps: it cannot end in the all-zero state either
+        for r in range(2):
+            sd = [rz.getrandbits(8) | 1 for _ in range(corpora.SEEDLEN[kind])]
+            for j in ("jump", "long_jump"):
+                Sz.case("%s %s from a random state" % (kind, j), [{"op": "from_seed", "g": 1, "kind": kind, "seed": sd}, {"op": j, "g": 1}, {"op": corpora.native_op(kind), "g": 1, "n": 2}])
     ev_z, cases_z, tres_z = run_trace("C07-seeding", Sz, "Trace_Alg.tla", "Trace_Alg.cfg", weight=step_weight)
     zero_rej = []
     for r in tres_z["rejected"]:
